@@ -239,6 +239,9 @@ where
     /// Desired capacity of each buffer.
     cap: usize,
 
+    /// Total number of bytes accepted by `write` so far.
+    written: u64,
+
     _marker: std::marker::PhantomData<D>,
 }
 
@@ -272,6 +275,7 @@ where
                 shared: shared.clone(),
                 buf: Vec::new(),
                 cap,
+                written: 0,
                 _marker: std::marker::PhantomData,
             },
             Reader {
@@ -279,6 +283,11 @@ where
                 _marker: std::marker::PhantomData,
             },
         )
+    }
+
+    /// Returns the total number of bytes accepted by `write` so far.
+    pub(crate) fn written(&self) -> u64 {
+        self.written
     }
 
     /// Causes the HTTP connection to be dropped abruptly with the given error.
@@ -365,6 +374,7 @@ where
         let full = remaining <= buf.len();
         let bytes = if full { remaining } else { buf.len() };
         self.buf.extend_from_slice(&buf[0..bytes]);
+        self.written += bytes as u64;
         if full {
             self.flush()?;
         }
